@@ -64,3 +64,63 @@ pub proof fn lemma_im_gcd_ext_signs(s0: Sign, m0: int, s1: Sign, m1: int)
             requires (sv(s1, t) == t && sv(s1, m1) == m1) || (sv(s1, t) == -t && sv(s1, m1) == -m1);
     }
 }
+
+// ---- the UBig / IBig accessors the forwarding macros of helper_macros.rs use -----------------------------------------------
+// TRUSTED (each states what the real one-line accessor does, on top of lib/repr_stubs.rs):
+//   ubig.rs:77 UBig::repr = self.0.as_typed(); ubig.rs:83 UBig::into_repr = self.0.into_typed()   (a UBig is never negative);
+//   ibig.rs:73 IBig::as_sign_repr = self.0.as_sign_typed(); ibig.rs:78 IBig::into_sign_repr = self.0.into_sign_typed().
+impl UBig {
+    #[verifier::external_body]
+    pub fn repr(&self) -> (r: TypedReprRef<'_>)
+        requires self.0.v() >= 0,
+        ensures r.v() == self.0.v(), r.wf(),
+    { unimplemented!() }
+    #[verifier::external_body]
+    pub fn into_repr(self) -> (r: TypedRepr)
+        requires self.0.v() >= 0,
+        ensures r.v() == self.0.v(), r.wf(),
+    { unimplemented!() }
+}
+impl IBig {
+    #[verifier::external_body]
+    pub fn as_sign_repr(&self) -> (r: (Sign, TypedReprRef<'_>))
+        ensures r.1.v() == iabs(self.0.v()), r.1.wf(),
+            r.0 == (if self.0.v() < 0 { Sign::Negative } else { Sign::Positive }),
+    { unimplemented!() }
+    #[verifier::external_body]
+    pub fn into_sign_repr(self) -> (r: (Sign, TypedRepr))
+        ensures r.1.v() == iabs(self.0.v()), r.1.wf(),
+            r.0 == (if self.0.v() < 0 { Sign::Negative } else { Sign::Positive }),
+    { unimplemented!() }
+}
+/// `dashu_base::Sign::Positive` as written in the mixed UBig / IBig forwarding macros
+pub mod dashu_base { pub use super::Sign; }
+/// `(UBig, IBig, IBig)`: the `$omethod` type of the ExtendedGcd instantiations (a metavariable substitution must be one token)
+pub type GcdExtOut = (UBig, IBig, IBig);
+
+/// resource: the magnitude has at most n >= 2 words and n + 1 words can be allocated
+pub open spec fn im_gcd_fits(v: int) -> bool { exists|n: int| n >= 2 && #[trigger] pw(n) > v && n + 1 < max_capacity() }
+pub proof fn lemma_im_gcd_fits(v: int)
+    requires im_gcd_fits(v),
+    ensures forall|x: TypedReprRef| #[trigger] x.wf() && x.v() == v ==> x.nwords() + 1 < max_capacity(),
+        forall|x: TypedRepr| #[trigger] x.wf() && x.v() == v ==> x.nwords() + 1 < max_capacity(),
+{
+    let n = choose|n: int| n >= 2 && #[trigger] pw(n) > v && n + 1 < max_capacity();
+    assert forall|x: TypedReprRef| #[trigger] x.wf() && x.v() == v implies x.nwords() + 1 < max_capacity() by {
+        match x {
+            TypedReprRef::RefSmall(d) => {}
+            TypedReprRef::RefLarge(w) => { if w@.len() > n { lemma_normalized_lower(w@); lemma_pw_mono(n, w@.len() as int - 1); } }
+        }
+    }
+    assert forall|x: TypedRepr| #[trigger] x.wf() && x.v() == v implies x.nwords() + 1 < max_capacity() by {
+        match x {
+            TypedRepr::Small(d) => {}
+            TypedRepr::Large(b) => { if b@.len() > n { lemma_normalized_lower(b@); lemma_pw_mono(n, b@.len() as int - 1); } }
+        }
+    }
+}
+/// sign and magnitude of v give v back
+pub proof fn lemma_im_sv_abs(v: int)
+    ensures sv(if v < 0 { Sign::Negative } else { Sign::Positive }, iabs(v)) == v,
+{
+}
